@@ -401,7 +401,7 @@ func (g *caseGen) run(nops int) {
 		obs := !g.big || k == nops-1
 		c := g.r.Intn(100)
 		switch {
-		case c < 42 || len(g.tbl) == 0: // add (new tx, or an old one again)
+		case c < 40 || len(g.tbl) == 0: // add (new tx, or an old one again)
 			var i int
 			if len(g.tbl) > 0 && g.r.Intn(4) == 0 {
 				i = g.r.Intn(len(g.tbl))
@@ -429,7 +429,7 @@ func (g *caseGen) run(nops int) {
 			default:
 				res.Histogram["op:add-ok"]++
 			}
-		case c < 56: // mark executed: mostly pending transactions, some others, some evictions
+		case c < 53: // mark executed: mostly pending transactions, some others, some evictions
 			recv := g.recvIdx()
 			var txIdx, evIdx []int
 			for _, i := range recv {
@@ -459,7 +459,7 @@ func (g *caseGen) run(nops int) {
 				}
 			}
 			res.Histogram["op:mark"]++
-		case c < 66: // unmark (reorg)
+		case c < 62: // unmark (reorg)
 			var txIdx, evIdx []int
 			if len(g.blocks) > 0 && g.r.Intn(5) != 0 {
 				b := g.blocks[g.r.Intn(len(g.blocks))]
@@ -496,7 +496,7 @@ func (g *caseGen) run(nops int) {
 			} else {
 				res.Histogram["op:unmark-empty-block"]++
 			}
-		case c < 82:
+		case c < 77:
 			if !g.f.orderOK() {
 				// no packing in the regime where Less is not an order (sort result algorithm-dependent):
 				// evaluate Less directly instead
@@ -507,7 +507,7 @@ func (g *caseGen) run(nops int) {
 			} else {
 				g.doPack()
 			}
-		case c < 89:
+		case c < 83:
 			i := g.r.Intn(len(g.tbl))
 			tx, err := g.pool.GetTransaction(g.tbl[i].Hash)
 			w, j := 0, 0
@@ -524,21 +524,45 @@ func (g *caseGen) run(nops int) {
 			}
 			g.emit(fmt.Sprintf("SLookup %d %d %d", i, w, j), map[string]interface{}{"op": "lookup", "tx": i, "where": w, "got": j}, false)
 			res.Histogram[fmt.Sprintf("op:lookup-%d", w)]++
-		case c < 93:
+		case c < 86:
 			i := g.r.Intn(len(g.tbl))
 			r := g.pool.IsExisted(g.tbl[i].Hash)
 			g.emit(fmt.Sprintf("SExists %d %s", i, hx.CoqBool(r)), map[string]interface{}{"op": "exists", "tx": i, "r": r}, false)
 			res.Histogram["op:exists"]++
-		case c < 95:
+		case c < 88:
 			i := g.r.Intn(len(g.tbl))
 			r := g.pool.VerifIsEvicted(g.tbl[i].Hash)
 			g.emit(fmt.Sprintf("SEvicted %d %s", i, hx.CoqBool(r)), map[string]interface{}{"op": "evicted", "tx": i, "r": r}, false)
 			res.Histogram["op:evicted-probe"]++
-		default:
+		case c < 91:
 			i, j := g.r.Intn(len(g.tbl)), g.r.Intn(len(g.tbl))
 			r := safeLess(g.tbl[i], g.tbl[j])
 			g.emit(fmt.Sprintf("SLess %d %d %d", i, j, r), map[string]interface{}{"op": "less", "a": i, "b": j, "r": r}, false)
 			res.Histogram["op:less"]++
+		default: // background expiry: one or several growRing ticks (an entry is dropped at its fifth tick)
+			n := 1
+			if g.r.Intn(3) == 0 {
+				n += g.r.Intn(5)
+			}
+			for j := 0; j < n; j++ {
+				before := g.pool.TxNum()
+				execBefore := map[common.Hash]bool{}
+				for _, t := range g.tbl {
+					execBefore[t.Hash] = g.pool.GetExecuted(t.Hash) != nil
+				}
+				g.pool.VerifGrowRing()
+				g.emit("STick", map[string]interface{}{"op": "expiry-tick"}, true)
+				for _, t := range g.tbl {
+					if execBefore[t.Hash] != (g.pool.GetExecuted(t.Hash) != nil) {
+						violate("C17/expiry:touches-executed", "an expiry tick changed an executed record", g.history())
+					}
+				}
+				if g.pool.TxNum() < before {
+					res.Histogram["op:tick-expired-some"]++
+				} else {
+					res.Histogram["op:tick-expired-none"]++
+				}
+			}
 		}
 		g.checkDisjoint(fmt.Sprintf("op %d", k))
 	}
@@ -665,7 +689,18 @@ func raceReplay(r *hx.Rng) {
 		addOK, _ = pool.AddTransaction(tx)
 		close(done)
 	}()
-	<-gd.checked // add has completed its existence check ("not existed")
+	select {
+	case <-gd.checked: // add has completed its existence check ("not existed")
+	case <-done: // add returned without consulting the executed store at all
+		res.Count("schedule:check;mark-executed;push", "race-replay", true)
+		if addOK {
+			pool.MarkExecuted(&types.BlockHeader{Height: 1}, types.Receipts{&types.Receipt{TxHash: tx.Hash}}, []*types.Transaction{tx}, nil)
+			if ok2, _ := pool.AddTransaction(tx); ok2 {
+				violate("C17/no-readmit:add-accepts-executed", "AddTransaction never looks at the executed store: an executed transaction is accepted again", map[string]interface{}{"ops": []string{"add tx", "mark-executed [tx]", "add tx"}, "tx": descTx(tx)})
+			}
+		}
+		return
+	}
 	marked := make(chan struct{})
 	go func() { // chain goroutine: a block containing the same transaction is added
 		blockNo++
@@ -697,6 +732,10 @@ func raceReplay(r *hx.Rng) {
 			map[string]interface{}{"schedule": []string{"G1 AddTransaction(tx): isTransactionExisted(tx.Hash) = false", "G2 MarkExecuted(header, [receipt(tx)], [tx], nil) runs to completion", "G1 AddTransaction(tx): received.push(tx)"}, "tx": descTx(tx), "pending": pending, "executed": executed, "packed_again": packed})
 	} else {
 		res.Note(fmt.Sprintf("check;mark-executed;push replay: pending=%v executed=%v mark-blocked-while-add-in-flight=%v", pending, executed, excluded))
+		// model (lrun [LCheck 1 t; LMarkW 2 [t] [] (waits); LPush 1; LMarkW 2 [t] []; LMarkR 2]): executed, not pending
+		if pending || !executed || packed {
+			violate("C17/schedules:replay-unexpected-state", fmt.Sprintf("after AddTransaction(tx) and MarkExecuted([tx]) both returned: pending=%v executed=%v packed=%v (expected executed only)", pending, executed, packed), map[string]interface{}{"tx": descTx(tx)})
+		}
 	}
 }
 
@@ -709,6 +748,8 @@ func soak(r *hx.Rng, rounds int) {
 		src := "0x" + hex.EncodeToString(r.Bytes(20))
 		tx := &types.Transaction{Source: src, Target: src, Type: 188, ChainId: "9500"}
 		copy(tx.Hash[:], r.Bytes(32))
+		// a gate nonce, so that AddTransaction and MarkExecuted both write to pool.batch (refreshGateNonce)
+		tx.SubTransactions = []types.UserData{{Address: uint64(i + 1)}}
 		var wg sync.WaitGroup
 		start := make(chan struct{})
 		for k := 0; k < 8; k++ {
